@@ -143,6 +143,8 @@ def asm_check(prop, tier, scale, cfg, ev):
             extra = ["--tier", tier, "--cases", str(cases), "--max-size", str(params.get("max_size", 300))]
             if params.get("budget"):
                 extra += ["--budget", str(params["budget"] * scale)]
+        for kv in st.get("set", []):
+            extra += ["--set", kv]
         import time
         t0 = time.time()
         results = R.run_workers(exe, cfg["variant"], prop, st["name"], mode, nworkers, pw, R.known_args(prop) + extra, timeout=3600)
@@ -178,11 +180,15 @@ def asm_check(prop, tier, scale, cfg, ev):
     ev.samples = [s for o in outs for s in o["samples"]][:8]
     known = [e for e in R.load_known(prop) if e.get("status") == "known"]
     inconclusive = 0
+    inc_sigs = {}
     groups = {}
     for o in outs:
         for p in o["problems"]:
             if p["inconclusive"]:
                 inconclusive += 1
+                import re as _re
+                key = _re.sub(r"/\S+:\d+:\d+: ", "", p["msg"])[:160]
+                inc_sigs[key] = inc_sigs.get(key, 0) + 1
                 continue
             sig = _asm_sig(prop, p["msg"], p)
             kid = None
@@ -196,6 +202,7 @@ def asm_check(prop, tier, scale, cfg, ev):
                 continue
             groups.setdefault(sig, []).append(p)
     ev.extra["inconclusive_tool_problems"] = inconclusive
+    ev.extra["inconclusive_signatures"] = dict(sorted(inc_sigs.items(), key=lambda kv: -kv[1])[:12])
     ev.extra["problem_signatures"] = {k: len(v) for k, v in groups.items()}
     if groups and violation is None:
         sig = sorted(groups.keys(), key=lambda k: (len(groups[k][0]["stream"].split()), k))[0]
@@ -208,6 +215,8 @@ def asm_check(prop, tier, scale, cfg, ev):
         with open(violation, "w") as f:
             f.write("orcverif-case v1\nproperty %s\nmode asm\nstream %s\nsig %s\n# message: %s\n# target=%s flags=0x%x bits=%d\n" % (
                 prop, p["stream"], sig, p["msg"], p["target"], p["flags"], p["bits"]))
+            if p["target"] in ("neon", "mips"):
+                f.write("# family=cross\n")
             for line in p["prog"].split("\n"):
                 f.write("# " + line + "\n")
         for n_shown, (s, lst) in enumerate(sorted(groups.items())):
@@ -225,7 +234,8 @@ def asm_replay(prop, casefile, cfg):
     tmpdir = tempfile.mkdtemp(prefix="asmreplay", dir=R.WORK)
     try:
         rec = os.path.join(tmpdir, "r.rec")
-        subprocess.run([exe, "--mode", "replay", "--file", casefile, "--times", "1", "--set", "out=" + rec],
+        fam = ["--set", "family=cross"] if "# family=cross" in open(casefile).read() else []
+        subprocess.run([exe, "--mode", "replay", "--file", casefile, "--times", "1", "--set", "out=" + rec] + fam,
                        env=R.child_env(cfg["variant"]))
         recs = asmcheck.parse_records(rec)
         if prop == "C12":
@@ -259,8 +269,13 @@ _ASM_COMMON = dict(
 PROPS["C12"] = dict(
     _ASM_COMMON,
     cflags=['-DVPROP_ID="C12"'],
+    stages=_ASM_COMMON["stages"] + [
+        dict(name="enum-cross-single-opcode", mode="enum", set=["family=cross"], quick=dict(budget=40), thorough=dict(budget=600)),
+        dict(name="rc-cross-programs", mode="rc", set=["family=cross"], quick=dict(cases=6000, max_size=400, budget=20),
+             thorough=dict(cases=400000, max_size=500, budget=400)),
+    ],
     level="exploration",
-    technique="round-trip / differential: generated programs -> orc listing -> GNU as -> objdump, compared with objdump of orc's own bytes",
+    technique="round-trip / differential: generated programs -> orc listing -> GNU as -> objdump, compared with objdump of orc's own bytes; for 32-bit NEON and MIPS: listing -> llvm-mc -> bytes compared with orc's bytes",
     level_text=("every single-opcode program form x {avx,sse,mmx} x feature subsets x {64,32 bit} x frame pointer x short jumps (quick: "
                 "a covering sample of the non-feature bits, thorough: the full product) plus rapidcheck-generated multi-instruction "
                 "programs are compiled; an independent assembler and disassembler decide whether text and bytes are the same "
@@ -271,8 +286,12 @@ PROPS["C12"] = dict(
           "operand-kind/prefix/in-place/2-D form x target x flag configurations; generated: rapidcheck choice streams -> well-typed programs "
           "of 1..40 instructions. Non-trivial = compiled successfully with a non-empty listing and code; distinct = hash of (program, "
           "target, flags). Oracle: the listing must assemble, and objdump(as(listing)) == objdump(orc bytes) instruction by instruction "
-          "(mnemonic, registers, memory operands, immediates; branch destinations as ordinals of the target instruction)."),
-    assumptions=["non-x86 backends (NEON, MIPS, Altivec) are not judged: llvm-mc dialect differences would make alarms unsound",
+          "(mnemonic, registers, memory operands, immediates; branch destinations as ordinals of the target instruction). Cross stages: "
+          "the same programs for 32-bit NEON and MIPS; llvm-mc(listing) must equal orc's bytes word for word, except words whose two "
+          "decodings (llvm-objdump) are the same instruction (single-register push/pop forms, nop forms)."),
+    assumptions=["32-bit NEON and MIPS listings are judged at byte level with llvm-mc 14 (.set noreorder/.noat for MIPS): a listing llvm-mc rejects "
+                 "is counted as inconclusive (assembler dialect), a byte difference that decodes to different instructions is a violation; "
+                 "64-bit NEON and Altivec listings are not judged (outside the statement's quantifier / no assembler for the dialect)",
                  "identical (listing, code) pairs are judged once"],
 )
 
